@@ -1,2 +1,130 @@
-(* placeholder, filled below *)
+(* C14 — Processing elements bracket every module event in stack order.
+   Statements only.  [trace sc] is the list of brackets (and Module::reset records) of the
+   run of script [sc] in the model of processing.rs / events.rs (coq/Proc/Model.v);
+   [flat_log sc] is the flat call log that the model runner prints and the implementation
+   runner reproduces.  A script fixes, for each of the two modules, ANY processing stack
+   (list of elements that pass / modify / consume and send from every hook), a handler
+   script, and any list of injected messages; all statements hold for every script. *)
+From Coq Require Import List NArith.
 From DesVerif Require Import Proc.Model Proc.Shape Proc.Corollaries Proc.Trace Proc.Emit Proc.Order Proc.Term.
+Import ListNotations.
+Open Scope N_scope.
+
+(* bracket_shape: the callbacks of one delivered event are exactly
+     start_0 [in_0] start_1 [in_1] .. start_{n-1} [in_{n-1}]  [handler]  [task]  end_{n-1} .. end_0
+   ([shape], coq/Proc/Shape.v): in_i is present iff the event carries a message and none of
+   the elements 0..i-1 consumes, and carries the payload as modified by elements 0..i-1; the
+   handler is present iff the event has one (message not consumed / start-up stage / tear-down). *)
+Theorem C14_bracket_shape : forall sc b, In (IBrk b) (trace sc) ->
+  calls (b_log b) = shape (b_mod b) (b_time b) (m_stack (cfg sc (b_mod b))) (b_kind b) (b_woken b).
+Proof. intros sc b H. exact (proj1 (bracket_in_trace sc b H)). Qed.
+Print Assumptions C14_bracket_shape.
+
+(* every installed element sees event_start exactly once, in stack order *)
+Theorem C14_start_once_in_order : forall sc b, In (IBrk b) (trace sc) ->
+  filter is_start (b_log b) =
+  map (fun i => mk (b_mod b) (Elem i) (HStart (b_time b))) (seq 0 (length (m_stack (cfg sc (b_mod b))))).
+Proof. intros sc b H. exact (start_once_in_order _ _ (bracket_in_trace sc b H)). Qed.
+Print Assumptions C14_start_once_in_order.
+
+(* the message is offered to the elements in stack order until one consumes it:
+   element i gets incoming (once) iff no element before it consumes *)
+Theorem C14_incoming_until_consumed : forall sc b, In (IBrk b) (trace sc) ->
+  let els := m_stack (cfg sc (b_mod b)) in
+  filter is_in (b_log b) =
+  flat_map (fun i => match kind_msg (b_kind b) with
+                     | Some x => if consumed (firstn i els) then []
+                                 else [mk (b_mod b) (Elem i) (HIn (pay x (firstn i els)))]
+                     | None => [] end) (seq 0 (length els)).
+Proof. intros sc b H. exact (incoming_until_consumed _ _ (bracket_in_trace sc b H)). Qed.
+Print Assumptions C14_incoming_until_consumed.
+
+(* the handler of a message event runs (exactly once, with the payload modified by the
+   whole stack) iff no element of the stack consumes *)
+Theorem C14_handler_iff_not_consumed : forall sc b x, In (IBrk b) (trace sc) -> b_kind b = KMsg x ->
+  let els := m_stack (cfg sc (b_mod b)) in
+  (forall y t', In (mk (b_mod b) Handler (HHandle y t')) (b_log b) ->
+     (forall e, In e els -> el_act e <> Consume) /\ y = pay x els /\ t' = b_time b) /\
+  ((forall e, In e els -> el_act e <> Consume) ->
+     filter is_handler_call (b_log b) = [mk (b_mod b) Handler (HHandle (pay x els) (b_time b))]) /\
+  ((exists e, In e els /\ el_act e = Consume) -> filter is_handler_call (b_log b) = []).
+Proof.
+  intros sc b x H Hk. pose proof (bracket_in_trace sc b H) as Hok.
+  destruct (handler_iff_not_consumed _ _ Hok x Hk) as [H1 H2].
+  split; [exact H1|split; [exact H2|exact (handler_skipped_when_consumed _ _ Hok x Hk)]].
+Qed.
+Print Assumptions C14_handler_iff_not_consumed.
+
+(* event_end runs exactly once per element, in reverse stack order, after every other
+   callback of the event (in particular after the handler) *)
+Theorem C14_end_once_reverse_after_handler : forall sc b, In (IBrk b) (trace sc) ->
+  exists pre, calls (b_log b) =
+              pre ++ map (fun i => mk (b_mod b) (Elem i) HEnd) (rev (seq 0 (length (m_stack (cfg sc (b_mod b)))))) /\
+              Forall (fun e => is_end e = false) pre.
+Proof. intros sc b H. exact (end_once_reverse_after_handler _ _ (bracket_in_trace sc b H)). Qed.
+Print Assumptions C14_end_once_reverse_after_handler.
+
+(* brackets never interleave: the flat call log of a whole run is a concatenation of
+   well-formed brackets, each made of entries of a single module ([brk_ok]), with
+   Module::reset records between brackets only *)
+Theorem C14_brackets_do_not_interleave : forall sc, Brackets sc (flat_log sc).
+Proof. exact flat_log_brackets. Qed.
+Print Assumptions C14_brackets_do_not_interleave.
+
+(* messages sent during an event are emitted in program order: the event set after the
+   event is the event set before it with the images of the send records of the event's log
+   added one by one in log order (then the restart event, if a shutdown was requested) *)
+Theorem C14_emitted_in_program_order : forall sc w t ev m, ev_module ev = Some m ->
+  w_fes (fst (process sc w t ev)) = fes_after t m (flat_map item_log (snd (process sc w t ev))) (w_fes w).
+Proof. exact process_fes. Qed.
+Print Assumptions C14_emitted_in_program_order.
+
+(* consequently two sends of one event with arrival times t1 <= t2 stand in program order
+   in the dispatch order of the event set, in every world the main loop reaches *)
+Theorem C14_sends_keep_order : forall sc w t ev f m a p1 b p2 c,
+  Reach sc w -> fes_fetch (w_fes w) = Some (t, ev, f) -> ev_module ev = Some m ->
+  pend_of t (flat_map item_log (snd (process sc (set_fes w f) t ev))) = a ++ p1 :: b ++ p2 :: c ->
+  fst p1 <= fst p2 ->
+  Subseq [p1; p2] (fes_order (w_fes (fst (process sc (set_fes w f) t ev)))).
+Proof. exact sends_keep_order. Qed.
+Print Assumptions C14_sends_keep_order.
+
+(* [Reach] is what the main loop of [run_script] goes through *)
+Theorem C14_loop_states_reachable : forall sc k,
+  match Common.Fuel.iter_nat k (loop_step sc) (fst (sim_start sc (init_world sc)), 0, snd (sim_start sc (init_world sc))) with
+  | inl st | inr st => Reach sc (fst (fst st)) end.
+Proof. exact loop_states_reach. Qed.
+Print Assumptions C14_loop_states_reachable.
+
+(* every run ends: the fuel of the event loop is never exhausted *)
+Theorem C14_run_terminates : forall sc, snd (run_script sc) = true.
+Proof. exact run_terminates. Qed.
+Print Assumptions C14_run_terminates.
+
+(* Non-vacuity: module 0 has the stack [pass; modify +5; consume; pass], module 1 the stack
+   [modify +1; modify +10] and a handler that sends twice; both receive payload 7 at t = 3. *)
+Definition ex_elem (a : act) : elem := {| el_act := a; el_start := []; el_in := []; el_end := [] |}.
+Definition ex_handler : handler :=
+  {| h_stages := 1; h_extra := XNone; h_start := [];
+     h_msg := [{| e_peer := false; e_delay := 2; e_id := 50 |}; {| e_peer := false; e_delay := 2; e_id := 51 |}];
+     h_end := []; h_task := [] |}.
+Definition ex_script : script :=
+  {| s_bud := 2;
+     s_m0 := {| m_stack := [ex_elem Pass; ex_elem (Modify 5); ex_elem Consume; ex_elem Pass]; m_handler := ex_handler |};
+     s_m1 := {| m_stack := [ex_elem (Modify 1); ex_elem (Modify 10)]; m_handler := ex_handler |};
+     s_inj := [(3, EvDeliver 0 7); (3, EvDeliver 1 7)] |}.
+Definition msg_logs (it : item) : list (list entry) :=
+  match it with IBrk b => match b_kind b with KMsg _ => [b_log b] | _ => [] end | _ => [] end.
+
+Example C14_nonvacuous :
+  firstn 2 (flat_map msg_logs (trace ex_script)) =
+  [ [mk 0 (Elem 0) (HStart 3); mk 0 (Elem 0) (HIn 7); mk 0 (Elem 1) (HStart 3); mk 0 (Elem 1) (HIn 7);
+     mk 0 (Elem 2) (HStart 3); mk 0 (Elem 2) (HIn 12); mk 0 (Elem 3) (HStart 3);
+     mk 0 (Elem 3) HEnd; mk 0 (Elem 2) HEnd; mk 0 (Elem 1) HEnd; mk 0 (Elem 0) HEnd];
+    [mk 1 (Elem 0) (HStart 3); mk 1 (Elem 0) (HIn 7); mk 1 (Elem 1) (HStart 3); mk 1 (Elem 1) (HIn 8);
+     mk 1 Handler (HHandle 18 3); mk 1 Handler (HSched 2 50); mk 1 Handler (HSched 2 51);
+     mk 1 (Elem 1) HEnd; mk 1 (Elem 0) HEnd] ] /\
+  (* the two messages sent by the handler of module 1 arrive in program order *)
+  map (fun l => nth 1 l (mk 9 Task HReset)) (skipn 2 (flat_map msg_logs (trace ex_script))) =
+  [mk 1 (Elem 0) (HIn 50); mk 1 (Elem 0) (HIn 51)].
+Proof. vm_compute. split; reflexivity. Qed.
